@@ -128,7 +128,12 @@ pub struct UdpSocketImpl {
 
 impl Socket for UdpSocketImpl {
     fn new(address: &SocketAddr, timeout_settings: &Option<TimeoutSettings>) -> GDResult<Self> {
-        let socket = net::UdpSocket::bind("0.0.0.0:0").map_err(|e| SocketBind.context(e))?;
+        // Bind to the unspecified address of the same family as the remote one
+        let bind_address: SocketAddr = match address {
+            SocketAddr::V4(_) => (net::Ipv4Addr::UNSPECIFIED, 0).into(),
+            SocketAddr::V6(_) => (net::Ipv6Addr::UNSPECIFIED, 0).into(),
+        };
+        let socket = net::UdpSocket::bind(bind_address).map_err(|e| SocketBind.context(e))?;
 
         let socket = Self {
             socket,
